@@ -950,3 +950,158 @@ Section McClauses.
     - rewrite Ed', Em', Ed, Em. split; reflexivity.
   Qed.
 End McClauses.
+
+Section SgmClauses.
+  Variables nr nc : Z.
+  Variable disp : Z -> Z -> option Q.
+  Variable mask : Z -> Z -> Z.
+  Variable disp' : Z -> Z -> option Q.
+  Variable mask' : Z -> Z -> Z.
+  Hypothesis S : sgm_spec nr nc disp mask disp' mask'.
+
+  Lemma sgm_only_flagged : forall r c, 0 <= r < nr -> 0 <= c < nc -> flagged (mask r c) = false ->
+    disp' r c = disp r c /\ mask' r c = mask r c.
+  Proof.
+    intros r c Hr Hc Hf. apply flagged_false in Hf. destruct Hf as [F8 F9].
+    destruct S as (d1 & m1 & P1 & P2). specialize (P1 r c Hr Hc). specialize (P2 r c Hr Hc).
+    destruct P1 as [[_ [Ed Em]] | [[E9 _] | [E9 _]]]; try congruence.
+    destruct P2 as [[_ [Ed' Em']] | [E8 _]]; [|rewrite Em in E8; congruence].
+    rewrite Em', Em, Ed', Ed. split; reflexivity.
+  Qed.
+
+  Lemma sgm_fate : forall r c, 0 <= r < nr -> 0 <= c < nc ->
+    Z.testbit (mask r c) 8 && Z.testbit (mask r c) 9 = false ->
+    (Z.testbit (mask r c) 8 = true ->
+       (mask' r c = mask r c /\ disp' r c = disp r c) \/ swapped 8 4 (mask r c) (mask' r c)) /\
+    (Z.testbit (mask r c) 9 = true ->
+       (mask' r c = mask r c /\ disp' r c = disp r c) \/ swapped 9 5 (mask r c) (mask' r c) \/
+       (swapped 9 8 (mask r c) (mask' r c) /\ disp' r c = disp r c) \/ swapped 9 4 (mask r c) (mask' r c)).
+  Proof.
+    intros r c Hr Hc NB. destruct S as (d1 & m1 & P1 & P2).
+    specialize (P1 r c Hr Hc). specialize (P2 r c Hr Hc). split; intro Hb.
+    - rewrite Hb in NB. cbn [andb] in NB.
+      destruct P1 as [[_ [Ed Em]] | [[E9 _] | [E9 _]]]; try congruence.
+      destruct P2 as [[E8 _] | [_ (nb & _ & [(_ & _ & Hs) | (_ & [Ed' Em'])])]].
+      + rewrite Em in E8. congruence.
+      + right. rewrite Em in Hs. exact Hs.
+      + left. rewrite Em', Ed', Em, Ed. split; reflexivity.
+    - rewrite Hb, andb_true_r in NB.
+      destruct P1 as [[E9 _] | [(_ & _ & Ed & Hs) | (_ & _ & nb & _ & [(_ & _ & Hs) | (_ & [Ed Em])])]].
+      + congruence.
+      + (* turned into an occlusion *)
+        destruct (swapped_98_bits _ _ Hs) as [_ S8].
+        destruct P2 as [[E8 _] | [_ (nb & _ & [(_ & _ & Hs2) | (_ & [Ed' Em'])])]].
+        * congruence.
+        * right. right. right. eapply swapped_98_84; eassumption.
+        * right. right. left. rewrite Em', Ed', Ed. split. exact Hs. reflexivity.
+      + (* median of the 8 directions *)
+        destruct (swapped_95_bits _ _ Hs) as [_ S8]. rewrite NB in S8.
+        destruct P2 as [[_ [_ Em']] | [E8 _]]; [|congruence]. right. left. rewrite Em'. exact Hs.
+      + destruct P2 as [[_ [Ed' Em']] | [E8 _]]; [|rewrite Em in E8; congruence].
+        left. rewrite Em', Ed', Em, Ed. split; reflexivity.
+  Qed.
+
+  Lemma sgm_pass1_range : forall lo hi d1 m1, valid_range nr nc disp mask lo hi ->
+    pass sgm_mismatch_px nr nc disp mask d1 m1 -> valid_range nr nc d1 m1 lo hi.
+  Proof.
+    intros lo hi d1 m1 VR P1 r c Hr Hc Hv. specialize (P1 r c Hr Hc).
+    destruct P1 as [[_ [Ed Em]] | [(_ & _ & _ & Hs) | (_ & _ & nb & Fnb & [(_ & (x & Ex & Hmed) & _) | (_ & [Ed Em])])]].
+    - rewrite Ed. apply VR; try assumption. rewrite <- Em. exact Hv.
+    - destruct (swapped_98_bits _ _ Hs) as [_ S8]. rewrite (flagged_invalid8 _ S8) in Hv. discriminate.
+    - exists x. split. exact Ex. eapply median_bounds. exact Hmed.
+      intros y Hy. eapply contributes_range; eassumption.
+    - rewrite Ed. apply VR; try assumption. rewrite <- Em. exact Hv.
+  Qed.
+
+  Lemma sgm_filled_range : forall lo hi, valid_range nr nc disp mask lo hi ->
+    forall r c, 0 <= r < nr -> 0 <= c < nc ->
+    filled (mask r c) (mask' r c) -> exists q, disp' r c = Some q /\ (lo <= q <= hi)%Q.
+  Proof.
+    intros lo hi VR r c Hr Hc [Ff Fn]. destruct S as (d1 & m1 & P1 & P2).
+    pose proof (sgm_pass1_range lo hi d1 m1 VR P1) as VR1.
+    specialize (P1 r c Hr Hc). specialize (P2 r c Hr Hc).
+    apply flagged_false in Fn. destruct Fn as [N8 N9].
+    destruct P2 as [[E8 [Ed' Em']] | [E8 (nb & Fnb & [(_ & (x & Ex & Hsl) & _) | (_ & [_ Em'])])]].
+    - rewrite Ed'. rewrite Em' in N8, N9.
+      destruct P1 as [[E9 [_ Em]] | [(_ & _ & _ & Hs) | (_ & _ & nb & Fnb & [(_ & (x & Ex & Hmed) & _) | (_ & [_ Em])])]].
+      + exfalso. rewrite Em in N8. unfold flagged in Ff. rewrite E9, N8 in Ff. discriminate.
+      + destruct (swapped_98_bits _ _ Hs). congruence.
+      + exists x. split. exact Ex. eapply median_bounds. exact Hmed.
+        intros y Hy. exact (contributes_range nr nc disp mask lo hi straight r c dirs8_rc nb VR Fnb y Hy).
+      + exfalso. rewrite Em in N8, N9. unfold flagged in Ff. rewrite N8, N9 in Ff. discriminate.
+    - exists x. split. exact Ex. eapply contributes_range. exact VR1. exact Fnb.
+      apply second_lowest_in. exact Hsl.
+    - rewrite Em' in N8. congruence.
+  Qed.
+
+  Lemma sgm_no_valid_pixel : (forall r c, 0 <= r < nr -> 0 <= c < nc -> spec_valid (mask r c) = false) ->
+    forall r c, 0 <= r < nr -> 0 <= c < nc ->
+      disp' r c = disp r c /\ (mask' r c = mask r c \/ swapped 9 8 (mask r c) (mask' r c)).
+  Proof.
+    intros NV r c Hr Hc. destruct S as (d1 & m1 & P1 & P2).
+    assert (U1 : forall r c, 0 <= r < nr -> 0 <= c < nc ->
+              d1 r c = disp r c /\ (m1 r c = mask r c \/ swapped 9 8 (mask r c) (m1 r c))).
+    { intros r0 c0 Hr0 Hc0. specialize (P1 r0 c0 Hr0 Hc0).
+      destruct P1 as [[_ [Ed Em]] | [(_ & _ & Ed & Hs) | (_ & _ & nb & Fnb & [(Hne & _) | (_ & [Ed Em])])]]; auto.
+      exfalso. apply Hne. eapply contributes_blind; eassumption. }
+    assert (NV1 : forall r c, 0 <= r < nr -> 0 <= c < nc -> spec_valid (m1 r c) = false).
+    { intros r0 c0 Hr0 Hc0. destruct (U1 r0 c0 Hr0 Hc0) as [_ [-> | Hs]]. apply NV; assumption.
+      apply flagged_invalid8. apply (swapped_98_bits _ _ Hs). }
+    specialize (P2 r c Hr Hc). destruct (U1 r c Hr Hc) as [Ed Em].
+    destruct P2 as [[_ [Ed' Em']] | [_ (nb & Fnb & [(Hl & _) | (_ & [Ed' Em'])])]].
+    - rewrite Ed', Em', Ed. split. reflexivity. exact Em.
+    - exfalso. rewrite (contributes_blind _ _ _ _ _ _ _ _ _ NV1 Fnb) in Hl. cbn in Hl. lia.
+    - rewrite Ed', Em', Ed. split. reflexivity. exact Em.
+  Qed.
+End SgmClauses.
+
+(* ------------------------------------------------------------------ uint16: no wrap-around *)
+Lemma swapped_lor_ldiff : forall a b m m', 0 <= a -> 0 <= b -> a <> b -> swapped a b m m' ->
+  m' = Z.lor (Z.ldiff m (2 ^ a)) (2 ^ b).
+Proof.
+  intros a b m m' Ha Hb Hab H. apply Z.bits_inj'. intros n Hn.
+  rewrite H, Z.lor_spec, Z.ldiff_spec, !Z.pow2_bits_eqb by assumption.
+  destruct (Z.eqb_spec n a) as [->|Na].
+  - rewrite Z.eqb_refl. cbn [negb]. rewrite andb_false_r. cbn [orb].
+    destruct (Z.eqb_spec b a); [congruence | reflexivity].
+  - destruct (Z.eqb_spec a n); [congruence|]. cbn [negb]. rewrite andb_true_r.
+    destruct (Z.eqb_spec n b) as [->|Nb]. rewrite Z.eqb_refl, orb_true_r. reflexivity.
+    destruct (Z.eqb_spec b n); [congruence|]. rewrite orb_false_r. reflexivity.
+Qed.
+
+Lemma lt_pow2_lor : forall x y k, 0 <= x < 2 ^ k -> 0 <= y < 2 ^ k -> 0 <= Z.lor x y < 2 ^ k.
+Proof.
+  intros x y k Hx Hy. assert (0 <= Z.lor x y) by (apply Z.lor_nonneg; lia). split. assumption.
+  destruct (Z.eq_dec (Z.lor x y) 0) as [->|Hn]. lia.
+  assert (Hk : 0 <= k). { destruct (Z_lt_le_dec k 0) as [L|L]; [|exact L]. rewrite Z.pow_neg_r in Hx by exact L. lia. }
+  assert (Hk1 : 0 < k).
+  { destruct (Z.eq_dec k 0) as [->|]; [|lia]. exfalso. apply Hn.
+    assert (x = 0) by (change (2 ^ 0) with 1 in Hx; lia). assert (y = 0) by (change (2 ^ 0) with 1 in Hy; lia).
+    subst. reflexivity. }
+  apply Z.log2_lt_pow2. lia. rewrite Z.log2_lor by lia.
+  assert (Z.log2 x < k). { destruct (Z.eq_dec x 0) as [->|]. cbn. lia. apply Z.log2_lt_pow2; lia. }
+  assert (Z.log2 y < k). { destruct (Z.eq_dec y 0) as [->|]. cbn. lia. apply Z.log2_lt_pow2; lia. }
+  lia.
+Qed.
+
+Lemma ldiff_lt_pow2 : forall m x k, 0 < k -> 0 <= m < 2 ^ k -> 0 <= Z.ldiff m x < 2 ^ k.
+Proof.
+  intros m x k Hk Hm. assert (N : 0 <= Z.ldiff m x) by (apply Z.ldiff_nonneg; left; lia). split. exact N.
+  destruct (Z.eq_dec (Z.ldiff m x) 0) as [->|Hn]. lia.
+  apply Z.log2_lt_pow2. lia.
+  destruct (Z_lt_le_dec (Z.log2 (Z.ldiff m x)) k) as [L|L]. exact L. exfalso.
+  assert (B : Z.testbit (Z.ldiff m x) (Z.log2 (Z.ldiff m x)) = true) by (apply Z.bit_log2; lia).
+  rewrite Z.ldiff_spec in B. apply andb_true_iff in B. destruct B as [B _].
+  destruct (Z.eq_dec m 0) as [->|Hm0]. rewrite Z.testbit_0_l in B. discriminate.
+  rewrite Z.bits_above_log2 in B. discriminate. lia.
+  assert (Z.log2 m < k) by (apply Z.log2_lt_pow2; lia). lia.
+Qed.
+
+Lemma swapped_range : forall a b m m', 0 <= a -> 0 <= b < 16 -> a <> b -> swapped a b m m' ->
+  0 <= m < 65536 -> 0 <= m' < 65536.
+Proof.
+  intros a b m m' Ha Hb Hab H Hm. rewrite (swapped_lor_ldiff a b m m') by (lia || assumption).
+  change 65536 with (2 ^ 16). apply lt_pow2_lor.
+  - apply ldiff_lt_pow2. lia. change (2 ^ 16) with 65536. lia.
+  - split. apply Z.pow_nonneg. lia. apply Z.pow_lt_mono_r; lia.
+Qed.
